@@ -40,9 +40,13 @@
 (***************************************************************************)
 EXTENDS Cmap, SequencesExt
 
-CONSTANT FixFmt0      \* FALSE: the writer as implemented (format 0 stores `gid as u8`);
+CONSTANTS
+  FixFmt0,            \* FALSE: the writer as implemented (format 0 stores `gid as u8`);
                       \* TRUE : the proposed repair (notes/C08-fix-1.diff): a Mac Roman character
                       \*        set whose new glyph ids exceed 255 is written as format 4
+  FixSymInv           \* FALSE: legacy_symbol_char_code_to_unicode as implemented;
+                      \* TRUE : the proposed repair (notes/C08-fix-2.diff): the exact inverse of
+                      \*        Font::legacy_symbol_char_code
 
 SYM == 16777216
 IsSym(x) == x >= SYM
@@ -55,6 +59,7 @@ IsScalar(c) == (c >= 0 /\ c <= 55295) \/ (c >= 57344 /\ c <= 1114111)      \* ch
 \* Mac Roman characters.  Definite: every implementation of Mac OS Roman has them; optional:
 \* Dev_MacCurrency / Dev_MacRomanPdfSubset of module Cmap (an implementation may not know them).
 MacDefinite == MacRomanChars \ MacOptionalChars
+U2M == [ch \in MacRomanChars |-> UniToMac(ch)]          \* char_to_macroman (constant, evaluated once)
 IsMac(x)    == ~IsSym(x) /\ x \in MacDefinite
 
 ---------------------------------------------------------------------------
@@ -68,7 +73,7 @@ CharNew(code, enc) ==
 
 \* legacy_symbol_char_code_to_unicode(ch, first)
 SymToUni(code, first) ==
-  LET c0 == IF code >= 61440 /\ code <= 61695 THEN code ELSE code + 61440
+  LET c0 == IF FixSymInv \/ (code >= 61440 /\ code <= 61695) THEN code ELSE code + 61440
       v  == (c0 + 32) - first
   IN IF IsScalar(v) THEN v ELSE NoChar
 
@@ -174,7 +179,7 @@ Format12From(kept) ==
 Format0From(kept) ==
   [fmt |-> 0,
    gia |-> [b \in 1 .. 256 |->
-              LET S == {i \in 1 .. Len(kept) : UniToMac(kept[i][1]) = b - 1} IN
+              LET S == {i \in 1 .. Len(kept) : U2M[kept[i][1]] = b - 1} IN
               IF S = {} THEN 0 ELSE kept[Max(S)][2] % 256]]
 
 \* owned::EncodingRecord::from_mappings: plane -> record; create_cmap_table wraps it
@@ -192,50 +197,85 @@ Subset(c) ==
 Failed(rec) == rec.tab.fmt = -1
 
 ---------------------------------------------------------------------------
-\* Reading the result: what the written record maps character x to (readers of module Cmap)
-OutCode(rec, x) ==
+\* Reading the result: what the written record maps character x to (readers of module Cmap).
+\* Dev_MacCurrency (module Cmap): Mac Roman code 0xDB is the currency sign U+00A4 or the euro
+\* sign U+20AC; an implementation knows it as ONE of them.  A Mac Roman record (read or written)
+\* is therefore interpreted under a reading v \in MacCurrencyReadings, the same for the source
+\* and the result; the property must hold under one of them.
+MacCurrencyReadings == {164, 8364}
+MacCode(x, v) ==
+  IF IsSym(x) \/ x \notin MacRomanChars THEN NoCode
+  ELSE IF x \in MacCurrencyReadings /\ x # v THEN NoCode ELSE U2M[x]
+OutCodeV(rec, x, v) ==
   LET enc == EncodingOf(rec) IN
   CASE enc = "Unicode"    -> IF IsSym(x) THEN NoCode ELSE x
     [] enc = "Symbol"     -> IF IsSym(x) THEN Val(x) ELSE NoCode
-    [] enc = "AppleRoman" -> IF ~IsSym(x) /\ x \in MacRomanChars THEN UniToMac(x) ELSE NoCode
+    [] enc = "AppleRoman" -> MacCode(x, v)
     [] OTHER -> NoCode
-OutMap(rec, x) == LET code == OutCode(rec, x) IN IF code = NoCode THEN 0 ELSE Map(rec.tab, code)
+OutMapV(rec, x, v) == LET code == OutCodeV(rec, x, v) IN IF code = NoCode THEN 0 ELSE Map(rec.tab, code)
+OutMap(rec, x) == OutMapV(rec, x, 164)
+
+\* Font::lookup_glyph_index on the subset font sees the written record through Font's encoding
+\* dispatch (property C06).  That second view is judged where the dispatch is the plain one:
+\* Unicode records for every Unicode character, Mac Roman records for the definite Mac Roman
+\* characters (for other characters Font falls back to the legacy symbol rule: C06's matter);
+\* not for Symbol records (the dispatch needs OS/2.usFirstCharIndex, and OS/2 is not carried into
+\* a TrueType subset).
+FontViewApplies(outEnc, x) ==
+  CASE outEnc = "Unicode"    -> ~IsSym(x) /\ IsScalar(x)
+    [] outEnc = "AppleRoman" -> ~IsSym(x) /\ x \in MacDefinite
+    [] OTHER -> FALSE
 
 ---------------------------------------------------------------------------
 \* The source's side: the code of character x in the source encoding and its glyph.
 \* For a Symbol source with a Mac Roman target the characters are Unicode characters and reach the
 \* subtable by the legacy symbol rule of Font (module Cmap, SymbolCode); otherwise the characters
 \* of a Symbol source are its codes.
-SrcCode(c, x) ==
+SrcCodeV(c, x, v) ==
   CASE c.enc = "Unicode"    -> IF IsSym(x) THEN NoCode ELSE x
     [] c.enc = "Symbol"     -> IF c.target = "MacRoman"
                                THEN (IF IsSym(x) THEN NoCode ELSE SymbolCode(x, c.first))
                                ELSE (IF IsSym(x) THEN Val(x) ELSE NoCode)
-    [] c.enc = "AppleRoman" -> IF ~IsSym(x) /\ x \in MacRomanChars THEN UniToMac(x) ELSE NoCode
+    [] c.enc = "AppleRoman" -> MacCode(x, v)
 SrcGlyphOfCode(sm, code) ==
   LET S == {i \in 1 .. Len(sm) : sm[i][1] = code} IN IF S = {} THEN 0 ELSE sm[Max(S)][2]
-SrcGlyph(c, x) == LET code == SrcCode(c, x) IN IF code = NoCode THEN 0 ELSE SrcGlyphOfCode(c.sm, code)
+SrcGlyphV(c, x, v) == LET code == SrcCodeV(c, x, v) IN IF code = NoCode THEN 0 ELSE SrcGlyphOfCode(c.sm, code)
+SrcGlyph(c, x) == SrcGlyphV(c, x, 164)
 
 \* The glyph ids the property allows for character x in the subset font.
 Retained(ids, g) == g # 0 /\ g \in ToSet(ids)
-Expect(target, ids, x, g) ==
-  IF ~Retained(ids, g) THEN {0}
+\* ... given whether the source glyph of x is retained and, if so, its new id
+ExpectNew(target, x, retained, nid) ==
+  IF ~retained THEN {0}
   ELSE IF target = "MacRoman"
        THEN (IF IsSym(x) \/ x \notin MacRomanChars THEN {0}
-             ELSE IF x \in MacOptionalChars THEN {0, NewId(ids, g)}
-             ELSE {NewId(ids, g)})
-       ELSE {NewId(ids, g)}
-Expected(c, x) == Expect(c.target, c.ids, x, SrcGlyph(c, x))
+             ELSE IF x \in MacOptionalChars THEN {0, nid}
+             ELSE {nid})
+       ELSE {nid}
+Expect(target, ids, x, g) == ExpectNew(target, x, Retained(ids, g), NewId(ids, g))
+ExpectedV(c, x, v) == Expect(c.target, c.ids, x, SrcGlyphV(c, x, v))
+Expected(c, x) == ExpectedV(c, x, 164)
 
 \* THE PROPERTY, over a set X of characters
 SubsetCmapOK(c, X) ==
-  LET rec == Subset(c) IN Failed(rec) \/ \A x \in X : OutMap(rec, x) \in Expected(c, x)
+  LET rec == Subset(c) IN
+  Failed(rec) \/ \E v \in MacCurrencyReadings : \A x \in X : OutMapV(rec, x, v) \in ExpectedV(c, x, v)
 
-\* Where the writer as implemented is known to break it (finding out=1/0:f0|gid-mod-256):
+\* Where the writer as implemented is known to break it (finding fmt0|gid-mod-256):
 \* a Mac Roman plane with a new glyph id above 255.
 Fmt0Overflow(c) ==
   LET k == Keep(c)  kept == Renumber(KeptSeq(k.m), c.ids) IN
   k.plane = 1 /\ \E i \in 1 .. Len(kept) : kept[i][2] > 255
+
+\* ... and (findings Symbol:first=..|MacRoman|1/0:f0|lost, ..|spurious): a Symbol source with a Mac Roman target
+\* where the conversion of a retained code is not the inverse of the legacy symbol rule.
+SymInvDiverges(c) ==
+  /\ c.enc = "Symbol" /\ c.target = "MacRoman"
+  /\ \E i \in 1 .. Len(c.sm) :
+        /\ Retained(c.ids, c.sm[i][2])
+        /\ LET code == c.sm[i][1]
+               c0 == IF code >= 61440 /\ code <= 61695 THEN code ELSE code + 61440
+           IN (c0 + 32) - c.first # (code + 32) - c.first
 
 \* Structural facts of what is written (cross-checked against Cmap's preconditions)
 WrittenWellFormed(rec) ==
